@@ -182,8 +182,8 @@ func lockHLL(c *Ctx) {
 
 func lockCuckoo(c *Ctx) {
 	cfg := cuckooCfg{
-		n:       []uint64{2, 4, 8, 16, 5, 7}[c.rng.Intn(6)],
-		b:       []uint64{1, 2, 4}[c.rng.Intn(3)],
+		n:       []uint64{2, 4, 8, 16, 5, 7, 2, 4}[c.rng.Intn(8)],
+		b:       []uint64{1, 2, 4, 1, 2}[c.rng.Intn(5)],
 		fpl:     []uint64{1, 2, 4}[c.rng.Intn(3)],
 		retries: 5,
 	}
@@ -203,7 +203,7 @@ func lockCuckoo(c *Ctx) {
 	}
 	var hist []string
 	live := make([]int, len(pool))
-	for op := 0; op < 30; op++ {
+	for op := 0; op < 45; op++ {
 		j := c.rng.Intn(len(pool))
 		e := pool[j]
 		replay := map[string]interface{}{"config": cfg.String(), "pool": poolHex(pool), "history": hist}
